@@ -701,11 +701,16 @@ func run(c *core.Ctx) {
 	sizes := [][2]int{{-1, 3}, {0, 1}, {2, 0}, {3, 5}, {10, 8}, {40, 60}}
 	strides := []int{1, 1, 1, 16, 64, 512}
 	if c.Tier == core.Thorough {
-		for i := 0; i < 60; i++ {
+		for i := 0; i < 30; i++ {
 			a, b := r.IntN(202)-1, r.IntN(201)
+			// every offset for small new states, coprime strides for bigger ones (so that different pairs cover
+			// different residues); ~2000-6000 crash points per pair
 			st := 1
-			if b > 60 {
-				st = 16
+			switch {
+			case b > 60:
+				st = 61
+			case b > 8:
+				st = 7
 			}
 			sizes = append(sizes, [2]int{a, b})
 			strides = append(strides, st)
